@@ -84,6 +84,9 @@ GRAMMARS = {
     "nomemo": "start = a $ ;\n@nomemo\na = 'x' | 'y' ;\n",
     "kwparams": "start = num $ ;\nnum(Number, base=10) = /\\d+/ ;\n",
     "kwparams_b": "start = num $ ;\nnum(Number, base=16) = /\\d+/ ;\n",
+    # a rule entered again at the same position after backtracking (what memoisation is for): how often its action runs
+    "bt": "start = num '+' num $ | num '-' num $ | num $ ;\nnum = /\\d+/ ;\n",
+    "bt_b": "start = num '+' num $ | num '-' num $ | num $ ;\nnum = /\\d+/ | /[a-z]+/ ;\n",
     # line ends as tokens
     "eol": "@@whitespace :: /[ \\t]+/\nstart = w '\\n' w $ ;\nw = /[a-z]+/ ;\n",
     # many distinct patterns: fills (and overflows) whatever process-wide cache of compiled patterns there is
@@ -136,10 +139,20 @@ INPUTS = {
     "kwparams": ["1", "a"],
     "kwparams_b": ["1", "a"],
     "eol": ["a\nb", "a b", "a \n b", "a\n\nb"],
+    "bt": ["1-2", "1+2", "1", "1*2", "12-3"],
+    "bt_b": ["1-2", "a-b", "1", "a+1"],
 }
+# texts of the same *shape* (same length, same line lengths) that differ in content or in how they end: whatever is kept
+# per text (line index, token cache, memo tables) and looked up by length / shape / position must not be shared by them
+for _g, _ts in INPUTS.items():
+    for _t in list(_ts[:2]):
+        if len(_t) >= 2 and not _t.endswith("\n"):
+            for _v in (_t[:-1] + "\n", _t + "\n", _t[:-1] + " "):
+                if _v not in _ts:
+                    _ts.append(_v)
 FAMILIES = [["typed", "typed_b", "typed_c", "params", "typed_d", "typed_tok"], ["kw", "icase", "kw_b", "kw_c"], ["ref", "two", "choice", "ws", "choice_b"], ["lrec", "cut", "over", "named", "const", "lrec_b"],
-            ["nums", "nums_b"], ["cmt_a", "cmt_b", "cmt_c"], ["clo", "clo_b", "opt", "join", "nlist"], ["inh", "nomemo", "kwparams", "kwparams_b", "params"], ["eol", "ws"], ["tok_a", "tok_b", "pat_a", "pat_b"], ["cn_a", "cn_b", "cn_c", "cn_d", "const"]]
-FAMILY_RULES = {"cmt_a": ["start", "num"], "clo": ["start", "item", "word", "num"], "inh": ["start", "base", "sub", "a", "num"], "eol": ["start", "w", "word"], "nums": ["start", "value", "integer", "real", "flag"], "tok_a": ["start"], "typed": ["start", "num", "word", "nosuch"], "kw": ["start", "name", "stmt"], "ref": ["start", "num", "word", "first", "second", "x", "nosuch"],
+            ["nums", "nums_b"], ["cmt_a", "cmt_b", "cmt_c"], ["clo", "clo_b", "opt", "join", "nlist"], ["inh", "nomemo", "kwparams", "kwparams_b", "params"], ["eol", "ws"], ["bt", "bt_b", "lrec", "choice"], ["tok_a", "tok_b", "pat_a", "pat_b"], ["cn_a", "cn_b", "cn_c", "cn_d", "const"]]
+FAMILY_RULES = {"bt": ["start", "num", "e", "n", "x"], "cmt_a": ["start", "num"], "clo": ["start", "item", "word", "num"], "inh": ["start", "base", "sub", "a", "num"], "eol": ["start", "w", "word"], "nums": ["start", "value", "integer", "real", "flag"], "tok_a": ["start"], "typed": ["start", "num", "word", "nosuch"], "kw": ["start", "name", "stmt"], "ref": ["start", "num", "word", "first", "second", "x", "nosuch"],
                 "lrec": ["start", "e", "n", "a", "b", "num"]}
 
 
@@ -165,7 +178,7 @@ CALL_SETTINGS = [{"comments": "\\{[^}]*\\}"}, {"eol_comments": ";[^\\n]*"}, {"me
 NAMES = [None, None, "A", "B", "Test"]
 SEM_HANDLES = {"S1": "tag", "S2": "eq", "S3": "num", "S4": "fb"}      # a shared semantics object is always of the same kind
 CFG_HANDLES = {"K1": {"parseinfo": True}, "K2": {"nameguard": False, "ignorecase": True}}  # and a shared config has fixed contents
-SEMS = ["none", "none", "id", "tag", "default", "num", "eq", "fa", "fb", "fc"]
+SEMS = ["none", "none", "id", "tag", "default", "num", "eq", "fa", "fb", "fc", "ord", "ord"]
 
 
 class SemFault(Exception):
@@ -195,6 +208,30 @@ def _where(kwargs):
     if pi is None:
         return None
     return [getattr(pi, "pos", None), getattr(pi, "endpos", None), getattr(pi, "line", None)]
+
+
+_OP_EPOCH = threading.local()  # exec_op counts the calls made by this thread
+
+
+class OrdSem(_Counting):
+    """Stateful semantics: every action result carries the ordinal of that invocation within the current API call (a
+    node-id allocator, a symbol-table builder).  How often and in which order actions run is then part of the result -
+    and, like the result, fixed by the arguments of the call: a rule tried again at the same position is served from the
+    memo of THIS parse or runs again, according to the settings of THIS call."""
+
+    def __init__(self, fault=None):
+        super().__init__(fault)
+        self._tl = threading.local()
+
+    def _default(self, ast, *args, **kwargs):
+        self._hit()
+        tl = self._tl
+        ep = getattr(_OP_EPOCH, "n", 0)
+        if getattr(tl, "epoch", None) != ep:
+            tl.epoch = ep
+            tl.n = 0
+        tl.n += 1
+        return [f"#{tl.n}", list(args), ast]
 
 
 class IdSem(_Counting):
@@ -413,7 +450,7 @@ def make_sem(kind, fault, tag=None):
         return ReenterSem(fault)
     if kind in ("fa", "fb", "fc"):
         return factory_sem(kind)(fault)
-    sem = {"id": IdSem, "tag": TagSem, "default": DefaultOnlySem, "num": NumSem, "eq": EqSem}[kind](fault)
+    sem = {"ord": OrdSem, "id": IdSem, "tag": TagSem, "default": DefaultOnlySem, "num": NumSem, "eq": EqSem}[kind](fault)
     if kind == "eq":
         sem.tag = tag
     return sem
@@ -646,6 +683,7 @@ def exec_op(op, H, probes=None):
 
     kind = op["op"]
     fault = op.get("fault")
+    _OP_EPOCH.n = getattr(_OP_EPOCH, "n", 0) + 1
     if op.get("semh"):
         # one semantics object owned by the caller and given to several calls (stateless kinds only)
         key = "sem:" + op["semh"]
@@ -1118,7 +1156,7 @@ def gen_call(rng, handles, models_only=False, allow_fault=True, focus=None):
     return op
 
 
-GOOD_INPUT = {"cmt_a": "1 (* c *) 2", "cmt_b": "1 {c} 2", "cmt_c": "1 2", "clo": "1", "clo_b": "1", "opt": "-1!", "join": "1", "nlist": "1,2", "inh": "x y", "nomemo": "x", "kwparams": "1", "kwparams_b": "1", "eol": "a\nb", "choice_b": "0x1f", "lrec_b": "a+b", "typed_tok": "begin 42", "kw_c": "IF", "manypat": "x71y", "cn_a": "7", "cn_b": "x", "cn_c": "x", "cn_d": "7 ab", "nums": "1", "nums_b": "1", "tok_a": "end if", "tok_b": "end  if", "pat_a": "12 34", "pat_b": "12  34", "ref": "12 ab", "choice": "a", "typed": "1", "typed_b": "1", "typed_c": "1 a", "typed_d": "ab", "params": "1", "kw": "x", "kw_b": "x",
+GOOD_INPUT = {"bt": "1-2", "bt_b": "a-b", "cmt_a": "1 (* c *) 2", "cmt_b": "1 {c} 2", "cmt_c": "1 2", "clo": "1", "clo_b": "1", "opt": "-1!", "join": "1", "nlist": "1,2", "inh": "x y", "nomemo": "x", "kwparams": "1", "kwparams_b": "1", "eol": "a\nb", "choice_b": "0x1f", "lrec_b": "a+b", "typed_tok": "begin 42", "kw_c": "IF", "manypat": "x71y", "cn_a": "7", "cn_b": "x", "cn_c": "x", "cn_d": "7 ab", "nums": "1", "nums_b": "1", "tok_a": "end if", "tok_b": "end  if", "pat_a": "12 34", "pat_b": "12  34", "ref": "12 ab", "choice": "a", "typed": "1", "typed_b": "1", "typed_c": "1 a", "typed_d": "ab", "params": "1", "kw": "x", "kw_b": "x",
               "icase": "x", "ws": "ab cd", "const": "a", "named": "1", "over": "(1)", "lrec": "1", "cut": "x y", "two": "ab"}
 
 
@@ -1330,6 +1368,66 @@ def gen_service_history(rng, handles):
     return ops
 
 
+# per-call settings that MATTER to a grammar (the parse takes another path under them), so that "unusual first, plain
+# later" histories are not mostly about settings the grammar never looks at
+_MEMO = [{"memoization": False}, {"memoization": False}, {"left_recursion": False}, {"memoization": False, "parseinfo": True}, {"memoization": False, "left_recursion": False}]
+_CASE = [{"ignorecase": True}, {"nameguard": False}, {"keywords": ["x", "iff"]}, {"namechars": "_"}, {"ignorecase": True, "nameguard": False}]
+_SPACE = [{"whitespace": ""}, {"whitespace": "[ ]+"}, {"nameguard": False}, {"whitespace": "[ \\t\\n]+"}]
+_CMT = [{"comments": "\\{[^}]*\\}"}, {"eol_comments": ";[^\\n]*"}, {"comments": "\\(\\*((?:.|\\n)*?)\\*\\)", "eol_comments": "#([^\\n]*?)$"}, {"comments": None}]
+RELEVANT_SETTINGS = {
+    **{g: _MEMO for g in ("bt", "bt_b", "lrec", "lrec_b", "cut", "choice", "choice_b", "nomemo", "clo", "opt", "join")},
+    **{g: _CASE for g in ("kw", "kw_b", "kw_c", "icase", "tok_a")},
+    **{g: _SPACE for g in ("ws", "tok_b", "pat_a", "pat_b", "eol", "ref")},
+    **{g: _CMT for g in ("cmt_a", "cmt_b", "cmt_c")},
+    **{g: [{"parseinfo": True}, {"parseinfo": True}, {"memoization": False}] for g in ("typed", "typed_c", "typed_tok", "nums")},
+}
+
+
+def gen_firstuse_history(rng, handles):
+    """ONE model or parser object whose FIRST use happens under unusual per-call options (another start rule, memoisation
+    or left recursion off, other white space / comments / case rules, a trace), followed by plain calls on the same
+    inputs: whatever an object works out lazily on first use (rule analysis, call infos, lookup tables, compiled
+    patterns) must not keep the colour of the call that happened to come first.  Also the other way round."""
+    g = rng.choice([x for x in GRAMMARS if x not in ("bad", "manypat")])
+    relevant = rng.random() < 0.65
+    if relevant:
+        g = rng.choice(sorted(RELEVANT_SETTINGS))
+    ops = []
+    sem = rng.choice(["none", "none", "ord", "ord", "tag", "id", "fb"])
+    if rng.random() < 0.65:
+        c = {"op": "compile", "g": g, "name": rng.choice(NAMES), "asmodel": sem == "none" and rng.random() < 0.3, "sem": sem,
+             "settings": rng.choice([{}, {}, {}, {"parseinfo": True}])}
+        kind = "mparse"
+        call_sem = {}
+    else:
+        c = {"op": "load", "g": g, "name": rng.choice(["P", "Q", None])}
+        kind = "pparse"
+        call_sem = {} if sem == "none" else {"sem": sem}
+    _HCTR[0] += 1
+    c["out"] = f"{'m' if kind == 'mparse' else 'p'}{_HCTR[0]}"
+    handles[c["out"]] = c
+    ops.append(c)
+    k = rng.random()
+    if relevant and k < 0.8:
+        odd = {"settings": dict(rng.choice(RELEVANT_SETTINGS[g]))}
+    elif k < 0.7:
+        odd = {"settings": dict(rng.choice([x for x in SETTINGS_POOL + CALL_SETTINGS if x]))}
+    elif k < 0.85:
+        odd = {"start": rng.choice([x for x in start_choices(g) if x] or ["start"])}
+    else:
+        odd = {"asmodel": True}
+    texts = [rng.choice([GOOD_INPUT.get(g, INPUTS[g][0]), rng.choice(INPUTS[g])]) for _ in range(rng.choice([1, 2, 3]))]
+    first = [dict({"op": kind, "h": c["out"], "g": g, "text": t}, **copy.deepcopy(odd), **call_sem) for t in texts[: rng.choice([1, 1, 2])]]
+    plain = [dict({"op": kind, "h": c["out"], "g": g, "text": t}, **call_sem) for t in texts]
+    if rng.random() < 0.75:
+        ops += first + plain
+    else:
+        ops += plain[:1] + first + plain
+    if rng.random() < 0.3:
+        ops.append(dict({"op": kind, "h": c["out"], "g": g, "text": texts[0]}, **copy.deepcopy(odd), **call_sem))
+    return ops
+
+
 def gen_builder_history(rng, handles):
     """An application that creates ONE BuilderConfig object (or one list of constructors) and passes it to every call,
     with per-call modules of node classes (typedefs) whose class names overlap: what one call leaves in the caller's
@@ -1374,6 +1472,8 @@ def gen_spec(seed: int, mode: str | None = None) -> dict:
             ops = gen_builder_history(rng, handles)
         elif k < 0.2:
             ops = gen_service_history(rng, handles)
+        elif k < 0.33:
+            ops = gen_firstuse_history(rng, handles)
         elif k < 0.6:
             ops = gen_pair_history(rng, handles)
         else:
